@@ -33,6 +33,7 @@ func init() {
 			need(m, &out, "adaptation_only_packets_in_streams", 500)
 			need(m, &out, "long_skipped_runs", 8)
 			need(m, &out, "giant_unit_streams", 12)
+			need(m, &out, "straddle_units_under_a_parser", 300)
 			need(m, &out, "streams_with_unparsable_packets", 100)
 			need(m, &out, "parser_runs_on_damaged_streams", 200)
 			need(m, &out, "parser_groups_observed", 1000)
@@ -191,8 +192,46 @@ func giantUnitsCase(c *mon.Ctx, idx int64, r *rand.Rand) {
 	}
 }
 
+// straddleParserCase: table units whose interior section header is split between two packets (or sits anywhere else in a packet),
+// under an observing PacketsParser: it must be handed the unit whole — every packet from the unit start to the last one — once.
+func straddleParserCase(c *mon.Ctx, idx int64, r *rand.Rand, kind refts.TableKind, before int) {
+	s, u := straddleStream(r, kind, before)
+	var groups [][]int // continuity counters of the packets of every group handed over on the unit's PID
+	cfg := baseCfg("data")
+	cfg.Parser = func(ps []*astits.Packet) ([]*astits.DemuxerData, bool, error) {
+		if len(ps) > 0 && ps[0].Header.PID == u.PID {
+			var g []int
+			for _, p := range ps {
+				g = append(g, int(p.Header.ContinuityCounter))
+			}
+			groups = append(groups, g)
+		}
+		return nil, false, nil
+	}
+	run := RunDemux(s.Bytes, cfg)
+	c.Count("straddle_units_under_a_parser")
+	c.Case(mon.HashBytes("c19hs", s.Bytes), true)
+	data := map[string]any{"stream": mon.Hex(s.Bytes, 1500), "section_header_starts_bytes_before_packet_end": before}
+	if run.Panic != "" {
+		c.Violate("C19/parser/panic", "header-straddle", idx, run.Panic, data)
+		return
+	}
+	if len(groups) != 1 || len(groups[0]) != len(u.Pkts) {
+		c.Violate("C19/parser/unit-not-handed-over-whole", "header-straddle", idx, fmt.Sprintf("the unit on PID %#x has %d packets; the parser was handed %d group(s) on that PID: %v", u.PID, len(u.Pkts), len(groups), groups), data)
+		return
+	}
+	if !checkStreamDelivery(c, "C19", "header-straddle", idx, s, nil, run, false) {
+		return
+	}
+}
+
 func runC19(c *mon.Ctx) {
 	longRuns(c)
+	for i := int64(0); i < 2*184; i++ {
+		if before := int(i % 184); before != 0 && c.Mine("header-straddle", i) {
+			straddleParserCase(c, i, c.Rng("header-straddle", i), []refts.TableKind{refts.KindPAT, refts.KindPMT}[i/184], before)
+		}
+	}
 	for i := int64(0); i < c.Pick(12, 240); i++ {
 		if c.Mine("giant", i) {
 			giantUnitsCase(c, i, c.Rng("giant", i))
